@@ -27,7 +27,7 @@ func (fx *FnExec) doCall(st *State, in *ssa.Call, k cont, depth int) {
 		}
 		return args
 	}
-	if fx.fc != nil && len(fx.fc.CallGhosts) > 0 && in.Parent() == fx.fn {
+	if fx.fc != nil && len(fx.fc.CallGhosts) > 0 && (in.Parent() == fx.fn || fx.eng.contractOf(in.Parent()) == nil) {
 		k0 := k
 		var rcv *Val
 		if c.IsInvoke() {
@@ -191,7 +191,14 @@ func (fx *FnExec) callFunc(st *State, in *ssa.Call, fn *ssa.Function, args []Val
 	}
 	// save caller's view of callee-local values is unnecessary: SSA values are per function;
 	// recursion is excluded by the depth limit.
-	fx.runFunc(st, fn, args, k, depth+1)
+	st.callStack = append(append([]*ssa.Call{}, st.callStack...), in)
+	kPop := func(s *State, res []Val) {
+		if n := len(s.callStack); n > 0 {
+			s.callStack = s.callStack[:n-1]
+		}
+		k(s, res)
+	}
+	fx.runFunc(st, fn, args, kPop, depth+1)
 }
 
 func (eng *Engine) ours(fn *ssa.Function) bool {
